@@ -248,6 +248,16 @@ Theorem C19_paused_inside_first_header : forall (c : cstate) p ps, (length p < 1
 Proof. exact client_paused_log_split_header. Qed.
 Print Assumptions C19_paused_inside_first_header.
 
+(* writers shared between goroutines (msgWriter.Write; the write loop behind concurrent SendNoWait):
+   the calls are served one at a time in SOME order - for every order [items] of the calls, the
+   stream carries frame by frame exactly the headers of the accepted calls, each once and each
+   followed by its own payload: every header on the wire is the encoding of one written message *)
+Theorem C19_shared_writer_stream : forall ver (items : list (N * N * N * N)), ver < 8 ->
+  Forall (fun it : N * N * N * N => snd (fst it) < 2 ^ 32) items ->
+  frame_headers (msg_writer_stream ver items) = msg_writer_headers ver items.
+Proof. exact msg_writer_stream_headers. Qed.
+Print Assumptions C19_shared_writer_stream.
+
 (* ---------------------------------------------------------------- Part 2: tables (generic) *)
 
 (* every message type the library can instantiate reports that same type code *)
@@ -347,6 +357,11 @@ Example C19_example_paused :
   /\ client_paused_log c [f1 ++ firstn 3 f2; skipn 3 f2] = [mkHdr 1 63 2 1234]
   /\ frame_headers (skipn 4 f1 ++ f2) <> [].
 Proof. vm_compute. repeat split; try reflexivity. discriminate. Qed.
+Example C19_example_shared_writer :
+  msg_writer_stream 1 [(62, 0, 5, 0); (950, 0, 6, 0); (1, 2, 7, 171)]
+    = [4; 62; 0; 0; 0; 10; 0; 0; 0; 5; 4; 1; 0; 0; 0; 12; 0; 0; 0; 7; 171; 171]
+  /\ frame_headers (msg_writer_stream 1 [(1, 2, 7, 171); (62, 0, 5, 0)]) = [mkHdr 1 1 2 7; mkHdr 1 62 0 5].
+Proof. vm_compute. split; reflexivity. Qed.
 (* the version field is not checked by the encoder (not demanded by the property; recorded) *)
 Example C19_note_version_unchecked :
   exists h b, wf_hdr h /\ hdr_encode h = Some b /\ hdr_decode b <> HOk h.
